@@ -1594,6 +1594,41 @@ func (c *compiler) compileTermSuffix(e *Term, s *Suffix) error {
 		c.append(&code{op: opiter})
 		return nil
 	} else if s.Optional {
+		x := e.Index
+		if n := len(e.SuffixList); n > 0 {
+			x = e.SuffixList[n-1].Index
+		} else if e.Type != TermTypeIndex {
+			x = nil
+		}
+		if x != nil && (x.Start != nil || x.End != nil ||
+			x.Str != nil && len(x.Str.Queries) > 0) {
+			// t[k]? => k as $k | t | try .[$k]
+			// so that k is evaluated against the input of t, outside the try
+			t := &Term{Type: TermTypeIdentity}
+			if n := len(e.SuffixList); n > 0 {
+				// no need to clone (ref: compileTerm)
+				e.SuffixList, t = e.SuffixList[:n-1], e
+			}
+			y := &Index{IsSlice: x.IsSlice}
+			q := &Query{Left: &Query{Term: t}, Op: OpPipe, Right: &Query{Term: &Term{
+				Type: TermTypeTry, Try: &Try{Body: &Query{Term: &Term{Type: TermTypeIndex, Index: y}}},
+			}}}
+			bind := func(k *Query, name string) *Query {
+				name = "$%" + name + strconv.Itoa(len(c.codes))
+				q = &Query{Left: k, Op: OpPipe, Patterns: []*Pattern{{Name: name}}, Right: q}
+				return &Query{Term: &Term{Type: TermTypeFunc, Func: &Func{Name: name}}}
+			}
+			if x.End != nil {
+				y.End = bind(x.End, "end")
+			}
+			if x.Start != nil {
+				y.Start = bind(x.Start, "start")
+			}
+			if x.Str != nil {
+				y.Start = bind(&Query{Term: &Term{Type: TermTypeString, Str: x.Str}}, "key")
+			}
+			return c.compileQuery(q)
+		}
 		if len(e.SuffixList) > 0 {
 			if u := e.SuffixList[len(e.SuffixList)-1].toTerm(); u != nil {
 				// no need to clone (ref: compileTerm)
